@@ -10,6 +10,7 @@ OPT_KW = {
 }
 TOK_DEFAULTS = {'sb': False, 'sp': True, 'esc': True, 'star': False, 'keep': False, 'colon': False, 'plus': False}
 KV_OPTS = dict(TOK_DEFAULTS, sb=True)
+AllTrueOpts = {n: True for n in OPT_NAMES}
 TRIGGERS = {'sb': '[]', 'sp': '()', 'esc': '\\', 'star': '/', 'keep': '/', 'colon': ':', 'plus': '+'}
 
 NO_ERR = {'id': 'none', 'arg': 0, 'l': 0}
@@ -135,7 +136,7 @@ def observe(tok, error_type, extra_eof: int = 2, limit: int = 1_000_000) -> dict
             elif eofs:
                 break   # something after EOF: logged as is, the specification rejects it
     except BaseException as exc:  # noqa: BLE001 - every exception type is an observation here
-        if isinstance(exc, (KeyboardInterrupt, SystemExit, MemoryError)):
+        if isinstance(exc, (KeyboardInterrupt, SystemExit)):
             raise
         err, etype, msg = classify_error(exc, error_type)
     finally:
